@@ -210,6 +210,9 @@ fn param_choices() -> Vec<Option<BM25Params>> {
 }
 
 struct Ctx {
+    /// the current history has had a stale posting revived by a re-insert (known finding): from then
+    /// on the content of the index (incl. what a reload resurrects) is attributed to that finding
+    tainted: bool,
     failures: Vec<Value>,
     n_fail: usize,
     evaluations: usize,
@@ -218,6 +221,9 @@ struct Ctx {
 
 impl Ctx {
     fn fail(&mut self, class: &str, what: String, history: &[String], extra: Value) {
+        const CONTENT: [&str; 9] = ["retrieval-set", "counters", "crash-prefix", "insert-result", "remove-result",
+            "purge-result", "compaction", "load-error", "concurrent-compaction-loss"];
+        let class = if self.tainted && CONTENT.contains(&class) { "stale-reinsert-resurrection" } else { class };
         self.n_fail += 1;
         if self.failures.iter().filter(|f| f["class"] == class).count() < 3 {
             self.failures.push(json!({"class": class, "what": what, "history": history, "detail": extra}));
@@ -336,7 +342,7 @@ fn stats_op(cx: &mut Ctx, ix: &Index, naive: &Naive, history: &[String]) -> Valu
 
 fn random_text(rng: &mut Rng) -> String {
     let n = rng.range(1, 5);
-    let mut ws: Vec<&str> = (0..n).map(|_| *rng.pick(&VOCAB[..if rng.chance(1, 2) { 5 } else { 12 }])).collect();
+    let mut ws: Vec<&str> = (0..n).map(|_| { let m = if rng.chance(1, 2) { 5 } else { 12 }; *rng.pick(&VOCAB[..m]) }).collect();
     if rng.chance(1, 10) { ws.push("x"); }
     if rng.chance(1, 12) { ws.insert(0, ""); }
     ws.join(" ")
@@ -410,13 +416,138 @@ fn flush_explore(
     true
 }
 
+
+/// Concurrency (partial, a stress run, not an exploration): mutator threads insert and remove
+/// documents (original text) on disjoint id ranges while another thread compacts in a loop;
+/// afterwards — in memory and after flush + load — every vocabulary term must return exactly the
+/// surviving documents containing it ("concurrent mutations with compaction lose nothing").
+fn stress(cx: &mut Ctx, rng: &mut Rng, rounds: usize) {
+    use std::sync::Arc;
+    use std::sync::atomic::{AtomicBool, Ordering};
+    cx.tainted = false;
+    for round in 0..rounds {
+        let overload = *rng.pick(&[48usize, 64, 128]);
+        let ix = Arc::new(Index::new("stress".to_string(), Ws, Some(BM25Config { bm25: BM25Params::default(), bucket_overload_size: overload })));
+        let stop = Arc::new(AtomicBool::new(false));
+        let compactor = { let ix = ix.clone(); let stop = stop.clone(); std::thread::spawn(move || {
+            let mut n = 0u64;
+            while !stop.load(Ordering::Relaxed) { ix.compact_buckets(); n += 1; std::thread::yield_now(); }
+            n
+        }) };
+        let mut handles = Vec::new();
+        for t in 0..3u64 {
+            let ix = ix.clone();
+            let mut r = rng.fork();
+            handles.push(std::thread::spawn(move || {
+                let mut live: BTreeMap<u64, String> = BTreeMap::new();
+                for step in 0..120u64 {
+                    let id = t * 1000 + r.range(1, 25) as u64;
+                    if let Some(text) = live.remove(&id) {
+                        ix.remove(id, &text, step);
+                    } else {
+                        let n = r.range(1, 4);
+                        let text = (0..n).map(|_| *r.pick(&VOCAB)).collect::<Vec<_>>().join(" ");
+                        if ix.insert(id, &text, step).is_ok() { live.insert(id, text); }
+                    }
+                }
+                live
+            }));
+        }
+        let mut naive = Naive::default();
+        for h in handles { for (id, text) in h.join().unwrap() { naive.insert(id, &text); } }
+        stop.store(true, Ordering::Relaxed);
+        let compactions = compactor.join().unwrap();
+        *cx.dist.entry("stress_compactions".into()).or_default() += compactions as usize;
+        let history = vec![format!("stress round {round}: 3 mutator threads x 120 ops, {compactions} concurrent compactions, bucket_overload_size={overload}")];
+        let check = |cx: &mut Ctx, ix: &Index, when: &str| {
+            for w in VOCAB {
+                cx.evaluations += 1;
+                let got: BTreeSet<u64> = ix.search(w, BIG_K, None).into_iter().map(|h| h.0).collect();
+                let want = naive.term_strict(w);
+                if got != want {
+                    cx.fail("concurrent-compaction-loss", format!("{when}: term {w:?} does not return the surviving documents"), &history,
+                        json!({"missing": want.difference(&got).collect::<Vec<_>>(), "extra": got.difference(&want).collect::<Vec<_>>()}));
+                }
+            }
+            if ix.len() != naive.texts.len() {
+                cx.fail("concurrent-compaction-loss", format!("{when}: document count {} != {}", ix.len(), naive.texts.len()), &history, json!(null));
+            }
+        };
+        check(cx, &ix, "in memory");
+        let mut store = MemStore::default();
+        let mut sink = std::io::sink();
+        if flush_explore(cx, &ix, &mut store, 1, &history, &mut sink) {
+            match load(&store) {
+                Ok(Some(nix)) => check(cx, &nix, "after flush + load"),
+                Ok(None) => {}
+                Err(e) => cx.fail("load-error", e, &history, json!(null)),
+            }
+        }
+        cx.bump("stress_rounds");
+    }
+}
+
+/// Replay a recorded history (the `history` array of a failure / replay file) on the real index
+/// and print what every vocabulary term returns next to the naive oracle, after each step that
+/// touches the durable state.
+pub fn replay(args: &[String]) {
+    let path = args.first().expect("usage: h_bm25 replay <file.json>");
+    let v: Value = serde_json::from_str(&std::fs::read_to_string(path).expect("read")).expect("json");
+    let hist = v.get("history").or_else(|| v.pointer("/failing_input/history")).and_then(|h| h.as_array()).expect("history").clone();
+    let mut ix = Index::new("replay".to_string(), Ws, None);
+    let mut naive = Naive::default();
+    let mut store = MemStore::default();
+    let mut cx = Ctx { tainted: false, failures: vec![], n_fail: 0, evaluations: 0, dist: BTreeMap::new() };
+    let mut sink = std::io::sink();
+    let unq = |s: &str| -> String { serde_json::from_str::<String>(s).unwrap_or_else(|_| s.trim_matches('"').to_string()) };
+    for (i, line) in hist.iter().enumerate() {
+        let line = line.as_str().unwrap_or("");
+        let h = vec![line.to_string()];
+        if let Some(r) = line.strip_prefix("new(bucket_overload_size=") {
+            let n: usize = r.trim_end_matches(')').parse().unwrap();
+            ix = Index::new("replay".to_string(), Ws, Some(BM25Config { bm25: BM25Params::default(), bucket_overload_size: n }));
+        } else if let Some(r) = line.strip_prefix("insert(") {
+            let (id, text) = r.trim_end_matches(')').split_once(", ").unwrap();
+            let (id, text) = (id.parse::<u64>().unwrap(), unq(text));
+            if ix.insert(id, &text, i as u64).is_ok() { naive.insert(id, &text); }
+        } else if let Some(r) = line.strip_prefix("remove(") {
+            let (id, text) = r.trim_end_matches(')').split_once(", ").unwrap();
+            let (id, text) = (id.parse::<u64>().unwrap(), unq(text));
+            ix.remove(id, &text, i as u64);
+            naive.remove(id, &text);
+        } else if let Some(r) = line.strip_prefix("purge_ids({") {
+            let ids: BTreeSet<u64> = r.trim_end_matches("})").split(", ").filter_map(|x| x.parse().ok()).collect();
+            ix.purge_ids(&ids, i as u64);
+            naive.purge(&ids);
+        } else if line == "compact_buckets()" {
+            ix.compact_buckets();
+        } else if line == "flush()" || line == "flush(); load_all()" {
+            flush_explore(&mut cx, &ix, &mut store, i as u64, &h, &mut sink);
+            if line != "flush()" {
+                if let Ok(Some(nix)) = load(&store) { ix = nix; naive.reload(); }
+            }
+            let docs: Vec<(u64, usize)> = (0..=12u64).filter_map(|id| ix.get_doc_tokens(id).map(|n| (id, n))).collect();
+            println!("step {i} {line}: doc_tokens {docs:?} expected ids {:?} manifest {:?}", naive.universe(),
+                store.meta.as_deref().map(manifest_of));
+        } else if line.starts_with("search") || line.starts_with("stress") {
+            continue;
+        }
+    }
+    for w in VOCAB {
+        let got: Vec<u64> = ix.search(w, BIG_K, None).into_iter().map(|h| h.0).collect();
+        println!("{w}: returned {got:?} strict-expected {:?}", naive.term_strict(w));
+    }
+    println!("oracle failures while replaying: {}", cx.n_fail);
+    for f in cx.failures { println!("{}", f); }
+}
+
 pub fn main(args: &[String]) {
     let mut rng = Rng::from_env();
     let n_hist: usize = arg_value(args, "--histories").and_then(|s| s.parse().ok()).unwrap_or(300);
     let max_ops: usize = arg_value(args, "--max-ops").and_then(|s| s.parse().ok()).unwrap_or(36);
     let out_path = arg_value(args, "--out").unwrap_or_else(|| "/dev/stdout".into());
     let mut out = std::io::BufWriter::new(std::fs::File::create(&out_path).expect("out"));
-    let mut cx = Ctx { failures: vec![], n_fail: 0, evaluations: 0, dist: BTreeMap::new() };
+    let mut cx = Ctx { tainted: false, failures: vec![], n_fail: 0, evaluations: 0, dist: BTreeMap::new() };
 
     for h in 0..n_hist {
         let mut r = rng.fork();
@@ -431,6 +562,9 @@ pub fn main(args: &[String]) {
         let n_ops = r.range(6, max_ops as i64) as usize;
         let id_space = *r.pick(&[3u64, 5, 8]);
         let mut nontrivial = false;
+        cx.tainted = false;
+        let mut model_frozen = false;
+        let mut frozen_len = 0usize;
         for step in 0..n_ops {
             let now = step as u64 + 1;
             let c = r.below(100);
@@ -519,11 +653,23 @@ pub fn main(args: &[String]) {
             if r.chance(1, 3) || step + 1 == n_ops {
                 rops.push(stats_op(&mut cx, &ix, &naive, &history));
             }
+            if !cx.tainted && naive.has_ghost() {
+                cx.tainted = true;
+                cx.bump("histories_tainted_by_revived_stale_posting");
+            }
+            // the whole-index model of flush+load is claimed only while no stale posting has been revived
+            if cx.tainted && !model_frozen && history.last().map(|l| l.contains("load_all")).unwrap_or(false) {
+                model_frozen = true;
+            }
+            if !model_frozen { frozen_len = rops.len(); }
         }
+        rops.truncate(frozen_len);
         if naive.has_ghost() { cx.bump("histories_ending_with_ghost_entries"); }
         cx.bump(if unclean { "histories_unclean" } else { "histories_clean" });
         writeln!(out, "{}", json!({"kind": "model", "case": Value::Array(rops), "nontrivial": nontrivial, "history": history})).unwrap();
     }
+    let n_stress: usize = arg_value(args, "--stress").and_then(|s| s.parse().ok()).unwrap_or(0);
+    stress(&mut cx, &mut rng, n_stress);
     writeln!(out, "{}", json!({"kind": "summary", "histories": n_hist, "evaluations": cx.evaluations,
         "oracle_failures": cx.n_fail, "failures": cx.failures, "distribution": cx.dist})).unwrap();
 }
